@@ -113,6 +113,36 @@ def build(repo, findings):
         C('C10 target-fd', 'r == (match *specified_fd_num { Some(n) => n, None => default_fd(*kind) })'),
     ])
     u.add(oo)
+    # ---- the file-name target of a redirection, from the expanded word to the descriptor table (R6 slice)
+    rf = interp.slice('setup_redirect', r'^\s*let expanded_file_path(?:: PathBuf)? =', r'^\s*params\.open_files\.set_fd\(fd_num, opened_file\);',
+                      'fn redirect_to_file(shell: &mut Shell, params: &mut ExecutionParameters, expanded_fields: &mut Vec<String>, options: &mut OpenOptions, kind: &ast::IoFileRedirectKind, specified_fd_num: &Option<ShellFd>) -> Result<(), error::Error>',
+                      'redirect_to_file', after_re=r'^\s*ast::IoFileRedirectTarget::Filename\(f\) => \{$')
+    rf.r1().r3()
+    rf.resub(r'shell\.absolute_path\(Path::new\((\w+)\.remove\(0\)\.as_str\(\)\)\)', r'shell_absolute_path(&*shell, \1.remove(0))', 'R14', 'Shell::absolute_path(Path::new(s)) -> stub (resolution against the shell\'s directory)', count=None)
+    rf.resub(r'PathBuf::from\((\w+)\.remove\(0\)\)', r'pathbuf_from(\1.remove(0))', 'R14', 'PathBuf::from(String) -> stub', count=None)
+    rf.resub(r'shell\s*\.open_file\(&options, &expanded_file_path, params\)\s*\.map_err\(\|err\| \{.*?\}\)\?', 'shell_open_file(&*shell, &*options, &expanded_file_path, &*params)?', 'R14', 'Shell::open_file(..).map_err(<message>)? -> stub with the same error path', flags=16)
+    rf.resub(r'\n\}$', '\n    Ok(())\n}', 'R6', 'wrapper epilogue `Ok(())`', count=1)
+    rf.at_body_start('redirect_to_file', 'broadcast use axiom_resolve_absolute;\nlet ghost word = expanded_fields@[0]@;')
+    NOCLOB = 'old(shell).opts().disallow_overwriting_regular_files_via_output_redirection'
+    rf.sig(ret='res', requires=[C('aux one-field', 'old(expanded_fields)@.len() == 1'), C('aux fresh-options', '*old(options) == no_flags()')], ensures=[
+        C('C10 the-file-opened-is-the-word-seen-from-the-shells-directory', '''res is Ok ==> ({
+    let fd = match *specified_fd_num { Some(n) => n, None => default_fd(*kind) };
+    &&& final(params).open_files@.contains_key(fd) && final(params).open_files@[fd] is Some
+    &&& (old(expanded_fields)@[0]@.len() > 0 ==> final(params).open_files@[fd]->Some_0.opened_path() == resolve(old(shell).cwd(), old(expanded_fields)@[0]@))
+    &&& final(params).open_files@ == old(params).open_files@.insert(fd, final(params).open_files@[fd])
+})'''),
+        C('C10 noclobber-looks-at-the-file-that-is-opened', '''(res is Ok && *kind is Write && %s && old(expanded_fields)@[0]@.len() > 0) ==> ({
+    let fd = match *specified_fd_num { Some(n) => n, None => default_fd(*kind) };
+    let f = final(params).open_files@[fd]->Some_0;
+    !f.opened_with().truncate && (fs_regular(f.opened_path()) ==> f.opened_with().create_new)
+})''' % NOCLOB),
+        C('C10 flags-follow-the-operator', '''res is Ok ==> ({
+    let fd = match *specified_fd_num { Some(n) => n, None => default_fd(*kind) };
+    final(params).open_files@[fd]->Some_0.opened_with() == want_flags(*kind, %s, fs_regular(resolve(process_cwd(), resolve(old(shell).cwd(), old(expanded_fields)@[0]@))))
+})''' % NOCLOB),
+        C('C10 failed-open-leaves-the-table', 'res is Err ==> final(params).open_files@ == old(params).open_files@'),
+    ])
+    u.add(rf)
     # ---- here-string and here-document arms of setup_redirect (R6 block slices)
     ast.require_text(r'pub struct IoHereDocument \{(?:[^}]|\n)*?pub requires_expansion: bool,(?:[^}]|\n)*?pub doc: Word,', 'projection IoHereDocument')
     u.prelude('std/str_ops.rs')
